@@ -162,6 +162,11 @@ def run_case(case):
             # (... and of two trailing implicit digests only the last one is the packet's)
             odd = [[T.enc_tlv(2, b'\x07' * 32)], [T.enc_tlv(8, b'\x07' * 32)], [digest, digest]][(i // 17) % 3]
             probes.append(('direct+other-last-component', checker, name + odd))
+        if i % 5 == 2 and name:
+            # the name as the decoders hand it over: components that are (writable) memoryviews into the packet buffer; as a tuple
+            from ndn.encoding import Name as _Name
+            probes.append(('direct+decoded-name', checker, _Name.from_bytes(bytearray(T.enc_tlv(7, b''.join(name))))))
+            probes.append(('loaded+tuple-name', loaded, tuple(name)))
         for label, ck, nm in probes:
             if label == 'direct+other-last-component':
                 want_here = L.match_all(sch, nm[:-1] if nm[-2:] == [digest, digest] else nm, fns, ex)
